@@ -210,7 +210,64 @@ def run_solver(solver, path, timeout):
     return first, model, dt, ""
 
 
+def _parse_solver_output(out):
+    first = ""
+    for l in out.splitlines():
+        l = l.strip()
+        if l:
+            first = l
+            break
+    if first not in ("sat", "unsat"):
+        return "unknown", {}, out[:300]
+    errs = [l for l in out.splitlines() if "(error" in l]
+    if first == "unsat":
+        errs = [l for l in errs if "model is not available" not in l and "cannot get model" not in l.lower()]
+    if errs:
+        return "unknown", {}, "; ".join(errs)[:300]
+    return first, (parse_model(out) if first == "sat" else {}), ""
+
+
+def race(path, timeout, solvers, wait_all=False):
+    """run several solvers on the same script concurrently; returns
+    {solver: (verdict, model, seconds, note)} for those that finished.  Without
+    wait_all the losers are killed as soon as one solver gives sat/unsat."""
+    import tempfile
+    procs = {}
+    t0 = time.time()
+    for sname in solvers:
+        of = tempfile.TemporaryFile(mode="w+")
+        procs[sname] = (subprocess.Popen(SOLVERS[sname](path, timeout), stdout=of, stderr=subprocess.STDOUT,
+                                         preexec_fn=os.setsid), of)
+    results = {}
+    while procs and time.time() - t0 < timeout + 15:
+        for sname in list(procs):
+            p, of = procs[sname]
+            if p.poll() is not None:
+                of.seek(0)
+                v, model, note = _parse_solver_output(of.read())
+                of.close()
+                results[sname] = (v, model, time.time() - t0, note or ("timeout" if v == "unknown" else ""))
+                del procs[sname]
+        if not wait_all and any(r[0] in ("sat", "unsat") for r in results.values()):
+            break
+        time.sleep(0.05)
+    for sname, (p, of) in procs.items():
+        try:
+            os.killpg(p.pid, 9)
+        except ProcessLookupError:
+            pass
+        p.wait()
+        of.close()
+        results.setdefault(sname, ("unknown", {}, time.time() - t0, "stopped"))
+    return results
+
+
 class Decider:
+    """Each obligation is an SMT-LIB2 script; z3 5.1 (`z3-new`) and z3 4.8.12 race on it (they differ a lot
+    on these bit-blasted scripts) and the first sat/unsat answer decides.  Once per obligation class (always
+    in the thorough tier) all solvers incl. cvc5 are run to completion/timeout and their answers compared;
+    a disagreement makes the obligation inconclusive."""
+
     def __init__(self, prop, tier, stats):
         self.prop, self.tier, self.stats = prop, tier, stats
         self.dir = os.path.join(WORK, prop)
@@ -218,7 +275,8 @@ class Decider:
         self.timeout = 300 if tier == "thorough" else 60
         self.n = 0
         self.second_opinions = set()
-        self.second_order = ("cvc5", "z3-old")
+        self.racers = ("z3-new", "z3-old")
+        self.extra_second = ("cvc5",)
         self.no_second = False      # set for all but one worker of a property in the quick tier
         self.log = []
 
@@ -232,31 +290,29 @@ class Decider:
         with open(path, "w") as f:
             f.write(q.smt2())
         t = timeout or self.timeout
-        v, model, dt, note = run_solver("z3-new", path, t)
-        self.stats.queries += 1
-        self.stats.solver_s += dt
-        self.stats.by_solver["z3-new"] = self.stats.by_solver.get("z3-new", 0) + 1
-        self.log.append({"query": name, "solver": "z3-new", "verdict": v, "s": round(dt, 2), "file": path})
-        if v == "unknown":
-            return v, model, "z3-new: " + note
-        # second opinion: once per obligation class (always in the thorough tier)
         cls = second or name.split("#")[0]
         want = ((self.tier == "thorough") or (cls not in self.second_opinions)) and not self.no_second
+        solvers = list(self.racers) + (list(self.extra_second) if want else [])
         if want:
             self.second_opinions.add(cls)
-            for other in self.second_order:
-                v2, m2, dt2, note2 = run_solver(other, path, t)
-                self.stats.queries += 1
-                self.stats.solver_s += dt2
-                self.stats.by_solver[other] = self.stats.by_solver.get(other, 0) + 1
-                self.log.append({"query": name, "solver": other, "verdict": v2, "s": round(dt2, 2), "file": path})
-                if v2 == "unknown":
-                    continue        # try the next second-opinion solver
-                self.stats.diffs += 1
-                if v2 != v:
-                    return "unknown", {}, "SOLVER DISAGREEMENT z3-new=%s %s=%s on %s" % (v, other, v2, path)
-                break
-        return v, model, ""
+        results = race(path, t, solvers, wait_all=want)
+        verdicts = {}
+        for sname, (v, model, dt, note) in results.items():
+            self.stats.queries += 1
+            self.stats.solver_s += dt
+            self.stats.by_solver[sname] = self.stats.by_solver.get(sname, 0) + 1
+            self.log.append({"query": name, "solver": sname, "verdict": v, "s": round(dt, 2), "file": path})
+            if v in ("sat", "unsat"):
+                verdicts[sname] = (v, model)
+        if not verdicts:
+            return "unknown", {}, "; ".join("%s: %s" % (k, r[3]) for k, r in results.items())
+        vs = {v for v, _ in verdicts.values()}
+        if len(vs) > 1:
+            return "unknown", {}, "SOLVER DISAGREEMENT %s on %s" % ({k: v for k, (v, _) in verdicts.items()}, path)
+        if len(verdicts) > 1:
+            self.stats.diffs += len(verdicts) - 1
+        first = sorted(verdicts.items(), key=lambda kv: results[kv[0]][2])[0]
+        return first[1][0], first[1][1], ""
 
 
 def native_run(cases):
